@@ -1,3 +1,9 @@
+import os
+
+
 def load_all():
-    from . import base, utils_c, tokens_c, tree, data_c, texargs_c, reader_c, top_c
+    from . import base, utils_c, tokens_c, tree, data_c, texargs_c, reader_c
+    if os.environ.get('VERIF_NO_WFT') != '1':
+        from . import wft_c
+    from . import top_c
     return base.REG
